@@ -19,7 +19,7 @@ TESTED_ONLY = {
  'C02': ['the vertex-set reading of the star; effects and frames of restrict / add by basis / subdivide beyond 4 points (add by faces, bulk add without renaming, removal of one simplex and deleteSimplex are proved for every history); bulk add under a renaming; attribute read-back (oracle c02-pre/post)'],
  'C03': ['d.d = 0 and boundary() of chains beyond 4 points (views oracle after every step); shapes, entries, cofaces = inverse of faces and basis = points of the closure are proved for every history'],
  'C04': ['the vertex-set reading of closure / star (subsets, supersets, 2^(k+1)-1 members), sortedness, lookups beyond 4 points; disjoint() beyond 3 points and for 4-tuples; returned names having the Python type they were created with (oracle c04); closure/star duality and no-repeats of the star are proved for every history'],
- 'C05': ['continuation after a rejected call behaves as if it had not been made (twin-history oracle); atomicity of addSimplexWithBasis / relabel beyond the cases proved'],
+ 'C05': ['continuation after a rejected call for requests with generated names / fresh dictionaries (twin-history oracle, up to generated names); atomicity of addSimplexWithBasis / relabel beyond the cases proved; a classification-complete invalid <=> rejected'],
  'C06': ['invariance under insertion order / copies / decoding (oracle c06-inv); the boundary operators being those of the stored complex is C03; the rank formula, orders above the maximum, Euler-Poincare, independence of names and betti 0 = number of connected components are proved'],
  'C07': ['boundary() of a returned chain being [] through the public call (oracle c07); count, cycles (on the matrix) and independence are proved'],
  'C08': ['that the *code* does not write through numpy views or shared dictionaries (before/after oracle on every call); heap frames of constructors other than copy'],
